@@ -46,6 +46,7 @@ THEOREMS = [
     "C10_body_executor_witness",
     "C10_notdata_rerun_example",
     "C10_refused_request_untouched",
+    "C10_executor_edit_survives",
 ]
 RULE = (
     "seeded random graphs (function nodes, macros nested to depth 3, workflows; 1-4 children per level, random data "
@@ -252,6 +253,9 @@ def _gen_ops(rng, root):
                 ops += _gen_edits(rng, root, slots, kids, rng.randint(1, 2), out=False)
             ops.append(["submit"])
             ops += _gen_edits(rng, root, slots, kids, rng.randint(0, 4), out=True)
+            if rng.random() < 0.25:
+                # the executor SETTING is edited while the node is out ("next time run it here / there")
+                ops.insert(rng.randrange(len(ops) - 0, len(ops) + 1), ["setexeat", [], rng.choice(["n", "is"])])
             # the executor runs the job to its end, withdraws it before it starts, or loses it
             r = rng.random()
             ops.append(["complete"] if r < 0.8 else (["cancel"] if r < 0.92 else ["lose"]))
@@ -345,6 +349,10 @@ def gen_cases(rng, tier):
         ex = sorted(rng.sample(range(3), rng.randint(1, 3)))
         yield {"kind": "fine", "n": 3, "exec": ex, "ckpt": rng.randrange(2),
                "choices": [rng.randrange(3) for _ in range(rng.randint(1, 8))]}
+    # the future belongs to the user too: later result() calls, outputs of every type incl. bytes, real pools
+    combos = [("rc", "bytes"), ("rc", "str"), ("rp", "bytes"), ("rt", "bytes"), ("xrc", "bytes"), ("rc", "tuple")]
+    for tok, val in (combos if tier == "thorough" else [combos[0]] + rng.sample(combos[1:], 2)):
+        yield {"kind": "future", "exe": tok, "value": val}
     # executor objects: live / instructions with every sharing pattern, repeated submissions, any completion order
     for _ in range(40 if tier == "quick" else 600):
         yield _gen_pools(rng)
@@ -403,6 +411,8 @@ def _gen_route(rng):
         a = attack(True)
         if a:
             ops.append(a)
+    if rng.random() < 0.3:
+        ops.append(["setexeat", list(target), rng.choice(["n", "is"])])
     r = rng.random()
     ops.append([("completeat" if r < 0.8 else ("cancelat" if r < 0.92 else "loseat")), list(target)])
     for _ in range(rng.randint(0, 2)):
@@ -843,14 +853,22 @@ def _attach(node, spec, env):
         if tok in ("is", "iv"):
             node.executor = env["mk"](tok == "iv")
         elif tok in ("xs", "xv"):
-            node.executor = (nc.make_executor, ("v" if tok == "xv" else "s",), {})
+            key = "v" if tok == "xv" else "s"
+            # half of the instruction settings use a provider OBJECT that is pickled by value
+            node.executor = ((nc.Provider(key), (), {}) if env.get("providers") and (len(env["assigned"]) % 2)
+                             else (nc.make_executor, (key,), {}))
         elif tok in ("rt", "rp", "rc"):
             node.executor = env["real"](tok)
         elif tok in ("xrt", "xrc"):
             node.executor = (nc.make_executor, ("real-thread" if tok == "xrt" else "real-cloud",), {})
+    if "assigned" in env:
+        env["assigned"][env.get("_path", ())] = node.executor
     if spec["t"] in ("macro", "wf"):
+        base = env.get("_path", ())
         for i, nd in enumerate(spec["level"]["nodes"]):
+            env["_path"] = base + (i,)
             _attach(node.children[f"n{i}"], nd, env)
+        env["_path"] = base
 
 
 def _variant():
@@ -1004,6 +1022,8 @@ def run_impl(case):
         return _run_labels(case)
     if case["kind"] == "fine":
         return _run_fine(case)
+    if case["kind"] == "future":
+        return _run_future(case)
     return {"obs": [], "stats": {"malformed": 1}}
 
 
@@ -1044,7 +1064,8 @@ def _run_tree(case):
         pools.append(e)
         return e
 
-    env = {"mk": lambda bv: CtlExe(sched, bv, bool(case["snap"]), case["pickler"], pokes), "real": mk_real}
+    env = {"mk": lambda bv: CtlExe(sched, bv, bool(case["snap"]), case["pickler"], pokes), "real": mk_real,
+           "assigned": {}, "providers": True}
     nc.REGISTRY["s"] = CtlExe(sched, False, True, case["pickler"], pokes)
     nc.REGISTRY["v"] = CtlExe(sched, True, bool(case["snap"]), case["pickler"], pokes)
     root = case["root"]
@@ -1208,6 +1229,15 @@ def _run_tree(case):
                     if kind in ("cancel", "lose"):
                         state["out"] = False
                 return "ok"
+            if kind == "setexeat":
+                n = real_at(t, op[1])
+                new = None if op[2] == "n" else env["mk"](False)
+                n.executor = new
+                if not is_twin:
+                    env["assigned"][tuple(op[1])] = new
+                else:
+                    n.executor = None
+                return "ok"
             if kind == "set":
                 t.inputs[in_label(t, op[1])].value = op[2]
                 return "ok"
@@ -1313,14 +1343,20 @@ def _run_tree(case):
                     tres = "ok" if was_out else None
                 elif op[0] in ("set", "setkid", "fetch"):
                     tres = apply(twin, op, True) if not was_out else None
-                elif op[0] in ("connect", "disconnect"):
+                elif op[0] in ("connect", "disconnect", "setexeat"):
                     tres = apply(twin, op, True)
                 elif op[0] in ("submitat", "completeat", "setat", "cancelat", "loseat"):
                     routed = True
                 d = dump(top)
                 obs += [f"res {res}"] + d + [ext_line(top, ext, state["out"]), "end"]
+                same = {}
+                for pth, obj in env["assigned"].items():
+                    try:
+                        same["0" if not pth else "0." + _mpath(case, list(pth))] = real_at(top, pth).executor is obj
+                    except Exception:  # noqa: BLE001
+                        pass
                 rows.append({"op": op, "res": res, "dump": d, "twin": dump(twin), "out": was_out,
-                             "twin_res": tres, "now_out": state["out"], "exc": exc})
+                             "twin_res": tres, "now_out": state["out"], "exc": exc, "exe_same": same})
         finally:
             if not os.path.exists(gate_path):
                 open(gate_path, "w").close()
@@ -1651,6 +1687,75 @@ def _run_labels(case):
             "stats": {"label_cases": 1, f"label_exe:{tok}": 1}}
 
 
+def _run_future(case):
+    """the future handed out by run() belongs to the user as well: every later `result()` — on the returned future and
+    on `node.future` — gives the node's value, whatever its type (`bytes` included), alone and inside a workflow"""
+    from concurrent.futures import Future, ProcessPoolExecutor, ThreadPoolExecutor
+
+    from pyiron_workflow import Workflow
+    from pyiron_workflow.executors import CloudpickleProcessPoolExecutor
+
+    from . import nodes, nodes_c10 as nc
+
+    nodes.reset()
+    nc.reset()
+    tok, kind = case["exe"], case["value"]
+    pools = []
+
+    def exe():
+        if tok == "xrc":
+            return (nc.make_executor, ("real-cloud",), {})
+        e = {"rt": ThreadPoolExecutor, "rp": ProcessPoolExecutor, "rc": CloudpickleProcessPoolExecutor}[tok](1)
+        pools.append(e)
+        return e
+
+    def one(in_wf):
+        import time
+
+        n = nc.Payload(label="n", kind=kind, text="c1")
+        _no_cache(n)
+        ref = nc.Payload(label="ref", kind=kind, text="c1")
+        _no_cache(ref)
+        want = repr(ref.run())
+        top = n
+        if in_wf:
+            top = Workflow("w", autoload=None)
+            top.add_child(n)
+            top.use_cache = False
+        n.executor = exe()
+        seen, res = [], "ok"
+        try:
+            r = top.run()
+            fut = r if isinstance(r, Future) else n.future
+            if isinstance(r, Future):
+                r.result(120)
+            t0 = time.time()
+            while n.running and time.time() - t0 < 60:
+                time.sleep(0.002)
+            for f in (fut, n.future, fut):
+                try:
+                    seen.append(repr(f.result(60)) if f is not None else "no-future")
+                except BaseException as e:  # noqa: BLE001
+                    seen.append(f"exc:{type(e).__name__}")
+        except BaseException as e:  # noqa: BLE001
+            res = f"exc:{type(e).__name__}"
+        return {"res": res, "later_results": seen, "want": want, "out": repr(n.outputs.o.value),
+                "failed": bool(n.failed), "running": bool(n.running)}
+
+    with _CallbackLog() as cb:
+        try:
+            rows = {"alone": one(False), "child": one(True)}
+        finally:
+            for e in pools + list(nc.CREATED):
+                try:
+                    e.shutdown(wait=True, cancel_futures=True)
+                except Exception:  # noqa: BLE001
+                    pass
+            nc.CREATED.clear()
+    return {"obs": [], "future": rows, "callback_errors": cb.records,
+            "stats": {"future_cases": 1, f"future:{tok}:{kind}": 1}}
+
+
 def _run_extconn(case):
     """a workflow that runs on an executor while its children are connected to nodes OUTSIDE it (2c1f321):
     those connections do not travel with a copy and must be back, mutual and in place, afterwards"""
@@ -1830,7 +1935,7 @@ def nontrivial(case, r):
     if case["kind"] == "pools":
         return any(row["res"] == "future" for row in r.get("rows", []))
     if case["kind"] != "tree":
-        return case["kind"] in ("for", "unused", "extconn", "fine") or (case["kind"] == "labels" and r["labels"]["created"])
+        return case["kind"] in ("for", "unused", "extconn", "fine", "future") or (case["kind"] == "labels" and r["labels"]["created"])
     return bool(r.get("pokes")) or any(row["res"] == "future" for row in r.get("rows", []))
 
 
@@ -1908,6 +2013,8 @@ def model_input(case, impl=None):
             lines.append(f"disconnect {op[1]}")
         elif k == "submitat":
             lines.append(f"submitat {_mpath(case, op[1])} {snap}")
+        elif k == "setexeat":
+            lines.append(f"setexeat {_mpath(case, op[1])} {'n' if op[2] == 'n' else 'is'}")
         elif k in ("completeat", "cancelat", "loseat"):
             lines.append(f"{k} {_mpath(case, op[1])}")
         elif k == "setat":
@@ -2043,6 +2150,15 @@ def oracle(case, r):
         return _oracle_for(case, r)
     if case["kind"] == "pools":
         return _oracle_pools(case, r)
+    if case["kind"] == "future":
+        out = []
+        for where, v in r["future"].items():
+            bad = [x for x in v["later_results"] if x != v["want"]]
+            if v["res"] != "ok" or v["out"] != v["want"] or v["failed"] or v["running"] or bad:
+                out.append(_fail("same-outputs", f"{case['value']} output on {case['exe']} ({where}): run {v['res']}, output "
+                                 f"{v['out']}, later result() calls {v['later_results']}, locally {v['want']}",
+                                 kind="future"))
+        return out
     if case["kind"] == "fine":
         f = r["fine"]
         out = []
@@ -2134,6 +2250,10 @@ def oracle(case, r):
                           f"({'no fault was injected' if not faulty else 'not the injected fault'}); callback: "
                           f"{r['callback_errors'][:1]}", exc=row.get("exc"), byvalue_comp=has_bv_comp,
                           cause=_cause(case, merged)))
+        if op[0] == "setexeat" and res == "ok":
+            mp = "0" if not op[1] else "0." + _mpath(case, op[1])
+            if mp in init:
+                init[mp] = dict(init[mp], e=("n" if op[2] == "n" else "i"))  # a deliberate edit of the setting
         finished = (op[0] == "run" and res in ("ok", "raised")) or (op[0] == "complete" and res == "ok")
         if op[0] in ("cancel", "lose") and res == "ok":
             # the executor never delivered: the node must fail visibly — or show what a local run would give
@@ -2164,6 +2284,12 @@ def oracle(case, r):
                                   field=fld, where=_where(case, p), after_merge=merged))
             if len(cur) != len(init):
                 add(_fail("keeps", f"after op #{k}: node set changed", field="tree", where="new"))
+            # the executor setting is the very object that was assigned (also instructions, also after an edit)
+            for mp, ok in (row.get("exe_same") or {}).items():
+                if not ok:
+                    add(_fail("keeps", f"after op #{k} {op}: the executor of {mp} is no longer the object that was "
+                              f"assigned (now shown as e={cur.get(mp, {}).get('e')})", field="e-identity",
+                              where=_where(case, mp), after_merge=merged))
             # ---- the same outputs (and inputs shown) as the local twin
             if accepted:
                 pass
